@@ -16,6 +16,7 @@ import (
 	"verif/sim/core"
 	"verif/sim/rig"
 	"verif/sim/simstream"
+	"verif/sim/tape"
 )
 
 func init() {
@@ -440,7 +441,9 @@ func (w *c15World) dial() {
 		frame = []byte{0, 0}
 	}
 	cl.pendingBytes = frame
-	local := &net.TCPAddr{IP: w.lips[cl.plane], Port: 4000}
+	// the accepted connection reports its local IPv4 address in the 4-byte or in the 16-byte form (a dual-stack
+	// listener reports the latter); both name the same address
+	local := &net.TCPAddr{IP: c15IPForm(t, w.lips[cl.plane]), Port: 4000}
 	conn, err := w.l.Dial(cl.addr, simstream.DialOpts{Local: local, ServerChunker: simstream.Seeded(uint64(t.Choose(1<<20, "chunkseed")))})
 	if err != nil {
 		if !w.closing {
@@ -675,7 +678,7 @@ func (w *c15World) action() {
 		if t.Bias(1, 6, "v6") {
 			plane = 1
 		}
-		conn, err := w.mux.GetConnByUfrag(uf, plane == 1, w.lips[plane])
+		conn, err := w.mux.GetConnByUfrag(uf, plane == 1, c15IPForm(t, w.lips[plane]))
 		if w.closing && err != nil {
 			c.Logf("GetConnByUfrag(%s) refused: the mux is closed", uf)
 			c.Probe("getconn-after-close-refused")
@@ -1003,4 +1006,15 @@ func c15Head(b []byte) string {
 		b = b[:12]
 	}
 	return fmt.Sprintf("%x", b)
+}
+
+// c15IPForm returns an IPv4 address in its 4-byte or its 16-byte form (tape's choice); IPv6 addresses unchanged.
+func c15IPForm(t *tape.Tape, ip net.IP) net.IP {
+	if v4 := ip.To4(); v4 != nil {
+		if t.Bias(1, 2, "ip4-form") {
+			return v4
+		}
+		return v4.To16()
+	}
+	return ip
 }
